@@ -260,6 +260,38 @@ theorem sim_finish {T : LinkTracker} {wb ms : Ledger} (h : Sim T wb ms) (r : Req
     · exact hmissSome
     · exact hmissMem
 
+
+/-! ### the missing ledger only matters as a set -/
+
+theorem Sim.congr_ms {T : LinkTracker} {wb ms ms' : Ledger} (h : Sim T wb ms) (hm : ∀ e, e ∈ ms ↔ e ∈ ms') :
+    Sim T wb ms' := by
+  refine ⟨h.links, h.refs, ?_, ?_⟩
+  · intro r
+    rw [h.missSome r, Bool.eq_iff_iff]
+    simp only [List.any_eq_true]
+    constructor
+    · rintro ⟨e, he, h2⟩; exact ⟨e, (hm e).1 he, h2⟩
+    · rintro ⟨e, he, h2⟩; exact ⟨e, (hm e).2 he, h2⟩
+  · intro r l; rw [h.missMem r l]; exact hm (r, l)
+
+theorem sim_foldl_record_true {T : LinkTracker} {wb ms : Ledger} (h : Sim T wb ms) (r : Req) (ls : List Link) :
+    Sim (ls.foldl (fun t l => t.record r l true) T) (wb ++ ls.map (fun l => (r, l))) ms := by
+  induction ls generalizing T wb with
+  | nil => simpa using h
+  | cons a t ih =>
+    rw [List.foldl_cons, List.map_cons]
+    have := ih (sim_record_true h r a)
+    simpa [List.append_assoc] using this
+
+theorem sim_foldl_record_false {T : LinkTracker} {wb ms : Ledger} (h : Sim T wb ms) (r : Req) (ls : List Link) :
+    Sim (ls.foldl (fun t l => t.record r l false) T) wb (ms ++ ls.map (fun l => (r, l))) := by
+  induction ls generalizing T ms with
+  | nil => simpa using h
+  | cons a t ih =>
+    rw [List.foldl_cons, List.map_cons]
+    have := ih (sim_record_false h r a)
+    simpa [List.append_assoc] using this
+
 /-! ### Empty -/
 
 theorem Sim.refcount_pos {T : LinkTracker} {wb ms : Ledger} (h : Sim T wb ms) :
